@@ -22,7 +22,7 @@ PtObsOK(o, p) ==
 
 EdCtor   == {"ed.decompress", "ed.from_slice", "ed.basepoint", "ed.identity", "ed.default", "ed.torsion"}
 EdBin    == {"ed.add", "ed.sub", "ed.add_assign", "ed.sub_assign", "ed.add_owned", "ed.sub_owned", "ed.cond_select", "ed.cond_assign"}
-EdUn     == {"ed.neg", "ed.neg_owned", "ed.double", "ed.mul_by_cofactor", "ed.mul_by_pow_2", "ed.copy"}
+EdUn     == {"ed.neg", "ed.neg_owned", "ed.double", "ed.mul_by_cofactor", "ed.mul_by_pow_2", "ed.copy", "ed.recode"}
 EdMul    == {"ed.mul", "ed.mul_rev", "ed.mul_assign", "ed.mul_owned", "ed.mul_base", "ed.mul_clamped", "ed.mul_base_clamped",
              "ed.vartime_double_scalar_mul_basepoint", "ed.table", "ed.table_static",
              "ed.multiscalar_mul", "ed.vartime_multiscalar_mul", "ed.optional_multiscalar_mul", "ed.precomputed", "ed.sum"}
@@ -45,7 +45,7 @@ EdExpected(e) ==
     [] e.op \in {"ed.cond_select", "ed.cond_assign"} -> <<TRUE, IF e.c THEN Pt(e.in[2]) ELSE Pt(e.in[1])>>
     [] e.op \in {"ed.neg", "ed.neg_owned"} -> <<TRUE, PtNeg(Pt(e.in[1]))>>
     [] e.op = "ed.double" -> <<TRUE, PtDouble(Pt(e.in[1]))>>
-    [] e.op = "ed.copy" -> <<TRUE, Pt(e.in[1])>>
+    [] e.op \in {"ed.copy", "ed.recode"} -> <<TRUE, Pt(e.in[1])>>
     [] e.op = "ed.mul_by_cofactor" -> <<TRUE, MulByCofactor(Pt(e.in[1]))>>
     [] e.op = "ed.mul_by_pow_2" -> <<TRUE, PtPow2(Pt(e.in[1]), e.k)>>
     [] e.op = "ed.sum" -> <<TRUE, PtSum(PtsOf(e.in), 1)>>
